@@ -9,6 +9,7 @@ import (
 	"math/rand/v2"
 	"slices"
 	"sync"
+	"sync/atomic"
 	"testing/synctest"
 	"time"
 	"unsafe"
@@ -45,6 +46,7 @@ type JoinScenario struct {
 	StopKind          string `json:"stop_kind,omitempty"`
 	StopBeforeRelease bool   `json:"stop_before_release,omitempty"`
 	StopDelay         int64  `json:"stop_delay_ns,omitempty"`
+	StopConcurrent    bool   `json:"stop_concurrent,omitempty"`  // Stop() is called from another goroutine while the consumer keeps reading
 	PreNew            int    `json:"steps_before_new,omitempty"` // that many leading steps are written into the (buffered) input before the discipline is created
 	CloseBeforeNew    bool   `json:"close_before_new,omitempty"` // all steps fit the buffer: the input is written and closed before creation
 	NilCtx            bool   `json:"v1_nil_ctx,omitempty"`       // v1: leave Opts.Ctx nil
@@ -307,6 +309,8 @@ func runJoin(sc JoinScenario, inBubble bool, rng *rand.Rand) *JoinTrace {
 
 	// consumer (this goroutine)
 	stopIssued := false
+	var stopRetAt atomic.Int64 // concurrent Stop(): when it returned (0: not yet)
+	var stopRetCh chan struct{}
 	issueStop := func() {
 		stopIssued = true
 		tr.StopCalled = now()
@@ -315,6 +319,12 @@ func runJoin(sc JoinScenario, inBubble bool, rng *rand.Rand) *JoinTrace {
 			return
 		}
 		ret := make(chan struct{})
+		if sc.StopConcurrent {
+			// the consumer goes on reading while Stop() is in progress in another goroutine
+			stopRetCh = ret
+			go func() { sys.stop(); stopRetAt.Store(max(now(), 1)); close(ret) }()
+			return
+		}
 		go func() { sys.stop(); close(ret) }()
 		select {
 		case <-ret:
@@ -365,7 +375,7 @@ recvLoop:
 			tr.ClosedAt = now()
 			break
 		}
-		if stopIssued && sc.StopKind == "stop" && tr.StopRet >= 0 {
+		if stopIssued && sc.StopKind == "stop" && (tr.StopRet >= 0 || (sc.StopConcurrent && stopRetAt.Load() > 0 && stopRetAt.Load() < callAt)) {
 			tr.afterStopSlices++
 			if tr.afterStopSlices > 1 {
 				// the output buffer of v1 join holds one slice: more than one after Stop returned
@@ -429,6 +439,14 @@ recvLoop:
 			issueStop()
 		}
 		k++
+	}
+	if stopRetCh != nil {
+		select {
+		case <-stopRetCh:
+			tr.StopRet = stopRetAt.Load()
+		case <-time.After(stopBound):
+			tr.StopRet = -1
+		}
 	}
 	close(abort)
 	// let an aborted producer finish: after a stop nobody reads the input any more, so the
@@ -1130,6 +1148,20 @@ func genJoinScenario(rng *rand.Rand, g joinGen) JoinScenario {
 				if rng.IntN(3) != 0 {
 					sc.Steps[i].Gap = 0
 				}
+			}
+		}
+	}
+	if sc.Disc == "v1join" && sc.StopKind == "stop" && !sc.StopBeforeRelease && rng.IntN(2) == 0 {
+		// Stop() from another goroutine while the consumer keeps reading and the producer keeps
+		// the input full: the discipline still has elements to pick between the stop signal
+		// and its exit, and what it delivers then is the consumer's like everything else
+		sc.StopConcurrent = true
+		if sc.InCap < 2*int(sc.J) {
+			sc.InCap = 2 * int(sc.J)
+		}
+		for i := range sc.Steps {
+			if rng.IntN(4) != 0 {
+				sc.Steps[i].Gap = 0
 			}
 		}
 	}
